@@ -699,7 +699,7 @@ GIVE_UP_EQUIVALENT = {
 }
 
 
-@rule("R09.9", 1, "no trial answers 'no match' early for in-memory input only or for reader input only (detection agrees between a slice and a reader of the same bytes)", ["C09", "C02", "C10"])
+@rule("R09.9", 1, "no trial answers 'no match' early for in-memory input only or for reader input only (detection agrees between a slice and a reader of the same bytes)", ["C09", "C02", "C10", "C18"])
 def r09_9(ctx):
     import vocab
 
@@ -895,7 +895,12 @@ def r09_7(ctx):
     # the trial's discriminator is that very kind
     yt = common.trial_functions(ctx.facts)["yaml"]
     kinds = []
-    for kt in kind_tests(Super(lib, yt, depth=2)):
+    ysup = Super(lib, yt, depth=2)
+    for kt in kind_tests(ysup):
+        # the trial's own tests (in its body, its closures, or a helper of its module): a kind test somewhere inside
+        # the reader it pulls its prefix through (a retry on Interrupted) is not the trial's verdict
+        if ysup.body_of(kt.node).file != yt.file:
+            continue
         kinds.extend(kt.named())
     ctx.ob("trial-skips-InvalidData", kinds == ["InvalidData"], site(yt), f"the YAML trial discriminates on ErrorKind {kinds}")
 
@@ -1002,6 +1007,23 @@ def _source_reads(b, src_fields):
     return ok_edges
 
 
+def _on_zero_count_arm(lib, b, bi, src_fields):
+    """Block bi is dominated by the `0` edge of a switch on the Ok payload of a `read` of the source
+    (`match self.source.read(..) { Ok(0) => <here>, .. }`)."""
+    for sb in sorted(b.reach()):
+        sw = b.blocks[sb]["term"]
+        if sw["k"] != "switch" or not is_place(sw["discr"]):
+            continue
+        zero = [t_ for v_, t_ in sw["targets"] if v_ == 0]
+        if not zero or not sw["discr"]["p"]["pr"]:
+            continue
+        if not _is_source_read_count(lib, b, sw["discr"], src_fields):
+            continue
+        if b.edge_dominates(sb, 0, zero[0], bi):
+            return True
+    return False
+
+
 def _is_source_read_count(lib, b, op, src_fields, depth=0):
     """`op` is the byte count of a successful `read` of the source: the Ok payload of that call, here or in a
     same-crate helper every Ok return of which hands back such a count (`let n = self.read_and_capture(buf)?`)."""
@@ -1038,7 +1060,7 @@ def _is_source_read_count_ok(lib, b, op, src_fields, depth):
     return _is_source_read_count(lib, b, op, src_fields, depth)
 
 
-@rule("R09.6", 3, "the capture reader marks end-of-input only on evidence of EOF from a successful source read (never on a short read or an error edge)", ["C09", "C12", "C03", "C02", "C10", "C14"])
+@rule("R09.6", 3, "the capture reader marks end-of-input only on evidence of EOF from a successful source read (never on a short read or an error edge)", ["C09", "C12", "C03", "C02", "C10", "C14", "C01"])
 def r09_6(ctx):
     lib = ctx.lib
     cap, guard = _capture_adts(lib)
@@ -1061,6 +1083,10 @@ def r09_6(ctx):
                 if rv["k"] == "use" and rv["op"].get("k") == "const":
                     if rv["op"].get("v") is False:
                         ctx.ob(key + ":false", True, site(b, line=s["line"]), "flag cleared", trivial=True)
+                        continue
+                    # const true on the `Ok(0)` arm of a match on the source's read result
+                    if _on_zero_count_arm(lib, b, bi, src_fields):
+                        ctx.ob(key + ":zero-length-read", True, site(b, line=s["line"]), "EOF recorded on the Ok(0) arm of the source's read")
                         continue
                     # const true: must follow a successful read_to_end of the source
                     good = False
